@@ -569,6 +569,8 @@ func runCallbacks(t *rapid.T) {
 		}
 	}
 	explicitDisable := rapid.Bool().Draw(t, "explicitdisable")
+	cycle := rapid.IntRange(0, 2).Draw(t, "suspendresume") // Suspend/Resume cycles after the modes were set
+	midSuspend := rapid.Bool().Draw(t, "midsuspend")       // callbacks also arrive while suspended: nothing may come of them
 	ch := hx.DrawChooser(t, 60)
 	w, err := newWW(ch)
 	if err != nil {
@@ -576,7 +578,7 @@ func runCallbacks(t *rapid.T) {
 	}
 	var want []string
 	ready := false
-	w.s.Note(hx.Fingerprint(cbNames(cbs), flags, mouseOn, pasteOn, focusOn))
+	w.s.Note(hx.Fingerprint(cbNames(cbs), flags, mouseOn, pasteOn, focusOn, cycle, midSuspend))
 	w.s.Spawn("app", func() {
 		if err := w.scr.Init(); err != nil {
 			w.failf("C19/event", "Init: %v", err)
@@ -604,6 +606,26 @@ func runCallbacks(t *rapid.T) {
 		}
 		if focusOn {
 			w.scr.EnableFocus()
+		}
+		for i := 0; i < cycle; i++ {
+			_ = w.scr.Suspend()
+			if midSuspend {
+				n0 := len(w.got)
+				w.host.Invoke("onKeyEvent", "q", false, false, false, false)
+				w.host.Invoke("onMouseClick", 1, 1, 1, false, false, false)
+				w.host.Invoke("onPaste", true)
+				simrt.Sleep("suspended", hx.Ms(1))
+				if len(w.got) != n0 {
+					w.failf("C19/event", "callbacks delivered while the screen was suspended produced events %v", w.got[n0:])
+				}
+			}
+			if err := w.scr.Resume(); err != nil {
+				w.failf("C19/event", "Resume: %v", err)
+			}
+			if focusOn {
+				// focus reporting is not among the modes Resume re-applies in
+				// this backend's Suspend (it only unhooks key, mouse, paste)
+			}
 		}
 		ready = true
 	})
